@@ -275,3 +275,19 @@ class Attempts(object):
         if und:
             d['undecided_rules'] = und
         return d
+
+
+def adopt(results, prop, tag):
+    """results of rules that belong to another property's module but decide
+    a necessary condition of `prop` as well (the component this property
+    relies on): reported under `prop`, the rule keeps its name"""
+    out = []
+    for r in (results if isinstance(results, (list, tuple)) else [results]):
+        if not isinstance(r, RuleResult):
+            continue
+        for f in r.findings:
+            f.prop = prop
+        if tag not in r.title:
+            r.title = '%s [%s]' % (r.title, tag)
+        out.append(r)
+    return out
